@@ -323,6 +323,70 @@ def set_iter(repo: Repo, rep):
                     continue
                 bad += 1
                 rep.violation("R-SET-ITER", f, it, f"{f.qualname} iterates the set `{short(it, 40)}` without sorted(): the order of what is generated from it (e.g. the keys inserted into a dict display) changes with PYTHONHASHSEED", construct=norm(it)[:60])
+    # the import lines that are added to a test file: ensure_import() writes them in the order it is given the names, so the
+    # collections handed to it are ordered ones (list / tuple), also when they come out of a helper
+    cg = callgraph(repo)
+
+    def returns_set(g, depth=0) -> bool:
+        names: Set[str] = set()
+        for _ in range(2):
+            for x in body_nodes(g.node):
+                if isinstance(x, ast.Assign) and len(x.targets) == 1 and isinstance(x.targets[0], ast.Name) and _is_set_expr(x.value, names):
+                    names.add(x.targets[0].id)
+        for r in body_nodes(g.node):
+            if isinstance(r, ast.Return) and r.value is not None:
+                if _is_set_expr(r.value, names):
+                    return True
+                if isinstance(r.value, ast.Dict) and any(_is_set_expr(v_, names) for v_ in r.value.values):
+                    return True
+        return False
+
+    for cf, c, how in cg.callers.get("_find_external.py::ensure_import", []):
+        if len(c.args) < 2:
+            continue
+        ccfg = cfg_of(cf)
+        at = ccfg.nodes_containing(c)
+        vals = []
+        arg = c.args[1]
+        if isinstance(arg, ast.Name):
+            # `imports = helper(...)` / `imports = {...}` - the definition that reaches the call
+            nm_ = arg.id
+            for x in body_nodes(cf.node):
+                if isinstance(x, ast.Assign) and len(x.targets) == 1 and isinstance(x.targets[0], ast.Name) and x.targets[0].id == nm_:
+                    arg = x.value
+        if isinstance(arg, ast.Dict):
+            vals = list(arg.values)
+        elif isinstance(arg, ast.Call):
+            vals = [arg]
+        for v in vals:
+            n += 1
+            e = v
+            if isinstance(e, ast.Name) and at:
+                local_sets: Set[str] = set()
+                for x in body_nodes(cf.node):
+                    if isinstance(x, ast.Assign) and len(x.targets) == 1 and isinstance(x.targets[0], ast.Name) and x.targets[0].id == e.id:
+                        if _is_set_expr(x.value, set()):
+                            local_sets.add(e.id)
+                        elif isinstance(x.value, ast.Call):
+                            tg, _ = cg.call_targets(cf, x.value)
+                            if any(returns_set(t) for t in tg):
+                                local_sets.add(e.id)
+                is_set = e.id in local_sets
+            else:
+                is_set = _is_set_expr(e, set())
+                if isinstance(e, ast.Call) and not is_set:
+                    tg, _ = cg.call_targets(cf, e)
+                    is_set = any(returns_set(t) for t in tg)
+            if is_set:
+                bad += 1
+                rep.violation(
+                    "R-SET-ITER",
+                    cf,
+                    c,
+                    f"{cf.qualname} hands ensure_import() a set of names (`{short(v, 30)}`): the `from inline_snapshot import ...` lines are written in the set's iteration order, which follows PYTHONHASHSEED - "
+                    "the same session writes different files on different runs",
+                    construct=f"{cf.qualname}:import-names-set",
+                )
     if not bad:
         rep.ok("R-SET-ITER", repo.func("_utils.py::value_to_token"), None, f"no unsorted iteration of a set in the code-generating modules ({n} order-insensitive uses)", site="code-generating modules: set iteration")
     probe = ast.parse("for k in new.keys() - old.keys():\n    pass").body[0]
